@@ -60,6 +60,9 @@ RULE = ('corpus (26 edge cases), then a skeleton (every scale of {0.5,0.75,1,1.5
         'quotient, == the requested pixel scale to 1e-12, shape == ceil of the IEEE product, resample(t) bit-identical to '
         'rescale(ps/t) on a fresh equal plane (twin, now for every single call), and the resampled plane multiplies into a '
         'wavefront with a plane already on the requested grid (whenever ps/(ps/t) == t in binary64); '
+        'ROUND 6: fit_tilt THEN rescale/resample (the angle a plane gives a wavefront and the propagated image must not move), '
+        'single-precision OPD maps in metres and magnitudes over 1e-13..1e9 (linearity), ndarray subclasses as inputs (masked, '
+        'matrix, tagged, memmap), scales within 1e-6 of 1, 2, 1/2, 3, and planes with more than 2**20 samples (oracle only); '
         'non-trivial = array amplitude, scale != 1, no refusal')
 
 TOL = 1e-9
@@ -138,6 +141,10 @@ def build(c):
             segs.append(((th >= lo + 0.15) & (th < hi - 0.15) & (r <= 0.85) & (r >= 0.12)).astype(float))
         mask = np.array(segs)
     amp = amp_of(n, m, c['g'], c['amp'])
+    if c.get('amp_mul') and np.ndim(amp) == 2 and np.asarray(amp).dtype.kind == 'f':
+        amp = (np.asarray(amp, dtype=float) * float(c['amp_mul'])).astype(np.asarray(amp).dtype)
+    if c.get('opd_mul'):
+        opd = opd * float(c['opd_mul'])
     if c.get('mask_cut'):
         if mask is None:
             mask = np.array(amp)
@@ -336,6 +343,11 @@ def rnd_plane(rng, n, m, special=True):
         elif t < 0.2:
             c['mask'] = 'scalar'
             c['amp'] = rng.choice(['scalar', 'smooth'])
+        elif t < 0.27:      # magnitudes over many decades: every operation is linear in amplitude and in opd
+            c['amp_mul'] = rng.choice([1e-13, 1e-9, 1e-6, 1e3, 1e9])
+            c['opd_mul'] = rng.choice([1e-4, 1e-2, 1, 1e2, 1e6])
+        elif t < 0.32:      # ndarray subclasses are legal array_like inputs: same result as the plain ndarray
+            c['wrap'] = rng.choice(['masked', 'masked_some', 'matrix', 'tagged', 'memmap'])
     return c
 
 
@@ -531,6 +543,36 @@ def generate(rng, tier):
         c['ps_form'] = rng.choice(['tuple', 'scalar', 'list', 'array'])
         if constructible(c):
             out.append(c)
+    # fit_tilt, THEN rescale/resample: the fitted tilt (an angle) is optics and must survive unchanged
+    for k in range(10 if quick else 60):
+        sc = rng.choice(['1/2', '3/4', '1', '5/4', '3/2', '2', '3', '5/2'])
+        lo = math.ceil(19 / min(float(Fraction(sc)), 1.0))
+        n = rng.randint(lo, 40 if quick else 48)
+        c = {'op': 'tiltchain', 'n': n, 'm': n if rng.random() < 0.4 else rng.randint(lo, 40 if quick else 48),
+             'g': rnd_g(rng, wf=round(1 / 2.7, 4)), 'scale': sc, 'via': rng.choice(['rescale', 'rescale', 'resample']),
+             'inplace': rng.random() < 0.5, 'mask': rng.choice(['none', 'none', 'seg2', 'seg3']),
+             'tiltA': round(rng.choice([-1, 1]) * rng.uniform(4e-7, 1.5e-6), 9), 'tiltB': round(rng.uniform(-1.5e-6, 1.5e-6), 9)}
+        out.append(c)
+    # single-precision OPD maps in metres (values far below the float32 machine epsilon 1.2e-7) and magnitudes over decades
+    for k, (om, am) in enumerate([(1, None), (1e-1, None), (1e-2, 1e-9), (1e-3, 1e-13), (1, 1e-11), (10, 1e6)]):
+        c = rnd_plane(rng, rng.randint(16, 24), rng.randint(16, 24), special=False)
+        c.update({'op': 'rescale', 'amp': 'float32' if k % 2 == 0 else 'smooth', 'opd': 'float32' if k < 4 else 'smooth',
+                  'opd_mul': om})
+        if am:
+            c['amp_mul'] = am
+        add(c, rng.choice(['1', '1/2', '3/2', '2']))
+    # near-ties: scales within 1e-6 relative of a special value but not equal to it (float regime)
+    for sc in (1 + 1e-7, 1 - 1e-7, 2 + 1e-9, 0.5 - 1e-8, 0.5 + 1e-8, 3 - 1e-7, 1.5 + 1e-6, 0.75 - 1e-6)[:4 if quick else 8]:
+        c = rnd_plane(rng, rng.randint(16, 28), rng.randint(16, 28), special=False)
+        c.update({'op': 'rescale', 'scale': str(Fraction(sc)), 'ps': ['1/64', '1/64'], 'inexact': True,
+                  'arg_form': 'float', 'ps_form': 'scalar'})
+        if constructible(c):
+            out.append(c)
+    # large planes (more than 2**20 samples, sizes not divisible by small block counts): oracle only
+    for n, m, sc in ([(1031, 1019, '1/2')] if quick else [(1031, 1019, '1/2'), (1100, 1027, '1'), (700, 523, '3/2')]):
+        c = {'n': n, 'm': m, 'g': rnd_g(rng), 'amp': 'smooth', 'opd': 'smooth', 'mask': 'disk', 'op': 'rescale',
+             'scale': sc, 'ps': ['1/1024', '1/1024'], 'nomodel': True, 'arg_form': 'float', 'ps_form': 'scalar'}
+        out.append(c)
     # float noise next to an integer: sizes for which the IEEE product n*s is within 1e-9 of an integer without being one
     # (0.005/0.015 = 0.33333333333333337, 48*s = 16.000000000000004 -> 17 samples): ceil() must see the product as it is
     noisy = []
@@ -571,6 +613,8 @@ def generate(rng, tier):
 
 
 def classify(c):
+    if c['op'] == 'tiltchain':
+        return f"tiltchain/{c['via']}/{'segmented' if c['mask'].startswith('seg') else 'monolithic'}"
     if c['op'] == 'sequence':
         return 'sequence/' + c.get('what', '')
     if c['op'] == 'history':
@@ -610,6 +654,8 @@ def scalar_mask(c):
 
 
 def nontrivial(c):
+    if c['op'] == 'tiltchain':
+        return Fraction(c['scale']) != 1
     if c['op'] == 'sequence':
         return len(c['cases']) >= 2
     if c['op'] == 'history':
@@ -637,6 +683,8 @@ def enc_fld(x):
 
 
 def encode(c):
+    if c['op'] == 'tiltchain' or c.get('nomodel'):
+        return None     # decided by the oracle (fit_tilt is not modelled here / plane too large for exact rationals)
     if c['op'] in MULTI:
         vs = calls_of(c)
         out = [3, len(vs)]
@@ -726,6 +774,43 @@ class Arr(str):
         return obj
 
 
+class TaggedArray(np.ndarray):
+    """an ndarray subclass carrying metadata"""
+
+    def __new__(cls, a, tag='meta'):
+        obj = np.asarray(a).view(cls)
+        obj.tag = tag
+        return obj
+
+    def __array_finalize__(self, obj):
+        self.tag = getattr(obj, 'tag', None)
+
+
+def wrap_array(a, kind):
+    """the same data as a legal array_like of another class: the result must be that of the plain ndarray"""
+    if np.ndim(a) != 2:
+        return a
+    a = np.asarray(a)
+    if kind == 'masked':
+        return np.ma.MaskedArray(a.copy())
+    if kind == 'masked_some':      # a few masked entries: np.asarray() of it is the underlying data
+        mk = np.zeros(a.shape, dtype=bool)
+        mk[::5, ::3] = True
+        return np.ma.MaskedArray(a.copy(), mask=mk)
+    if kind == 'matrix':
+        return np.matrix(a.copy())
+    if kind == 'tagged':
+        return TaggedArray(a.copy())
+    if kind == 'memmap':
+        import tempfile
+        f = tempfile.NamedTemporaryFile(prefix='lv-c17-', suffix='.dat')
+        mm = np.memmap(f, dtype=a.dtype, mode='w+', shape=a.shape)
+        mm[...] = a
+        mm._lv_file = f
+        return mm
+    return a
+
+
 def mk_plane(c):
     lentil = C.import_lentil()
     amp, opd, mask = build(c)
@@ -740,6 +825,11 @@ def mk_plane(c):
             ps = list(ps)
         elif form == 'array':
             ps = np.array(ps)
+    w = c.get('wrap')
+    if w:
+        amp, opd = wrap_array(amp, w), wrap_array(opd, w)
+        if mask is not None and np.ndim(mask) == 2:
+            mask = wrap_array(mask, w)
     p = lentil.Plane(amplitude=amp, opd=opd, mask=mask, pixelscale=ps)
     for x, y in c.get('tilt', []):
         p.tilt.append(lentil.Tilt(x=x, y=y))
@@ -922,9 +1012,77 @@ def run_history(c):
     return {'steps': out}
 
 
+def tilt_plane(c):
+    """smooth pupil whose OPD carries a strong plain tilt (several waves) on top of the smooth figure"""
+    lentil = C.import_lentil()
+    n, m = c['n'], c['m']
+    amp, opd = smooth_fields(n, m, c['g'])
+    u, v = grid(n, m)
+    opd = opd + c['tiltA'] * u + c['tiltB'] * v
+    mask = None
+    if c['mask'].startswith('seg'):
+        amp0, opd0, mask = build(dict(c, amp='smooth', opd='smooth'))
+    dx = 1.0 / max(n, m)
+    return lentil.Pupil(amplitude=amp, opd=opd, mask=mask, pixelscale=dx, focal_length=10.0), dx
+
+
+def field_tilts(lentil, p):
+    w = lentil.Wavefront(650e-9) * p
+    return [[[float(t.x), float(t.y)] for t in f.tilt] for f in w.data]
+
+
+def run_tiltchain(c):
+    """fit_tilt (book-keeps the tilt of the OPD in plane.tilt), THEN rescale/resample, THEN use the plane"""
+    lentil = C.import_lentil()
+    lam, fl, npix = 650e-9, 10.0, 24
+    p, dx = tilt_plane(c)
+    s = float(Fraction(c['scale']))
+    with warnings.catch_warnings():
+        warnings.simplefilter('ignore')
+        if c['inplace']:
+            p.fit_tilt(inplace=True)
+            pf = p
+        else:
+            pf = p.fit_tilt(inplace=False)
+        opd0, tilt0 = np.array(pf.opd), tilt_values(pf)
+        q = pf.resample(dx / s) if c['via'] == 'resample' else pf.rescale(s)
+        res = {'tilt_fit': tilt0, 'tilt_q': tilt_values(q), 'ftilt_fit': field_tilts(lentil, pf), 'ftilt_q': field_tilts(lentil, q),
+               'orig_kept': bool(np.array_equal(pf.opd, opd0) and tilt_values(pf) == tilt0),
+               'ps': [float(x) for x in q.pixelscale], 'shape': list(q.mask.shape[-2:])}
+        if not c['mask'].startswith('seg'):
+            ips = 0.4 * lam * fl * min(s, 1.0) / (dx * npix)
+            i0 = image_of(lentil, pf, npix, ips)
+            i1 = image_of(lentil, q, npix, ips)
+            rr, cc = np.indices(i0.shape)
+            cen = lambda im: np.array([np.sum(rr * im), np.sum(cc * im)]) / np.sum(im)
+            res['image_peak_rel'] = float(np.abs(i1 - i0).max() / i0.max())
+            res['centroid_shift'] = float(np.abs(cen(i1) - cen(i0)).max())
+    return res
+
+
+def tiltchain_verdict(c, r):
+    s = Fraction(c['scale'])
+    n, m = c['n'], c['m']
+    if not r['orig_kept']:
+        return 'rescaling the tilt-fitted plane changed its opd / tilt list'
+    if r['shape'] != [math.ceil(n * s), math.ceil(m * s)]:
+        return f"shape {r['shape']} is not ceil(n*s)"
+    if not r['tilt_fit'] or not any(abs(x) > 1e-9 for t in r['tilt_fit'] for x in t):
+        return 'harness: the fitted tilt is negligible, the case does not test anything'
+    if r['ftilt_q'] != r['ftilt_fit']:
+        return (f"fit_tilt then {c['via']}({float(s)}): the tilt (an angle) the plane gives to a wavefront changed from "
+                f"{r['ftilt_fit'][0][:1]} to {r['ftilt_q'][0][:1]}: rescaling changed the optics, not only the sampling")
+    if 'image_peak_rel' in r and not r['image_peak_rel'] <= IMAGE_TOL:
+        return (f"TEST (numeric): fit_tilt then {c['via']}({float(s)}): the propagated image changed by {r['image_peak_rel']:.3e} of its "
+                f"peak > {IMAGE_TOL} (centroid moved {r['centroid_shift']:.3f} px)")
+    return None
+
+
 def run_impl(c):
     if c.get('test') == 'accuracy':
         return run_accuracy(c)
+    if c['op'] == 'tiltchain':
+        return run_tiltchain(c)
     if c['op'] == 'history':
         return run_history(c)
     if c['op'] == 'sequence':
@@ -1090,6 +1248,8 @@ def node_index(n, N, s, j):
 def oracle(c, impl):
     if c.get('test') == 'accuracy':
         return accuracy_verdict(impl)
+    if c['op'] == 'tiltchain':
+        return tiltchain_verdict(c, impl)
     if c['op'] in MULTI:
         for k, (v, r) in enumerate(zip(calls_of(c), impl['steps'])):
             msg = oracle(v, {k_: x for k_, x in r.items() if k_ != 'fresh_diff'})
